@@ -23,6 +23,16 @@ for d in /verif/seeded/${1}*/; do
   rm -f /verif/replays/*/fail-*.json
   git -C /repo worktree remove --force $wt
 done
+if [ -n "$1" ] && [ -f $out ]; then
+  # partial run: replace the lines of the re-run changes in the existing table
+  python3 - $out $tmp <<'PY'
+import sys
+out,tmp=sys.argv[1:3]
+new={l.split('|')[1].strip():l for l in open(tmp) if l.startswith('|')}
+lines=open(out).read().split('\n')
+open(out,'w').write('\n'.join(new.pop(l.split('|')[1].strip(),l) if l.startswith('| ') and len(l.split('|'))>2 and l.split('|')[1].strip() in new else l for l in lines))
+PY
+fi
 if [ -z "$1" ]; then
   { echo "# Seeded changes: result of the quick tier of the named checks (written by seedrun.sh against /repo $(git -C /repo rev-parse --short HEAD))"; echo; echo "| seeded change | quick checks |"; echo "|---|---|"; cat $tmp; } > $out
 fi
